@@ -9,7 +9,7 @@ import random
 
 META = {'explanation': 'exception classes and post-state validity are clauses of every public contract (proved); a bounded API fuzzer '
                        'covers entry points that take format strings or are not yet under contract.'}
-EXTRA_TASKS = ['fuzz', 'sequences']
+EXTRA_TASKS = ['fuzz', 'sequences', 'array_ops']
 # properties whose public contracts are re-run as the deductive part of C20
 ALSO_PROPS = ['C03', 'C06', 'C15', 'C16', 'C04']
 
@@ -295,3 +295,93 @@ def sequences(tier='quick', seed=0):
             'bounded': [{'id': 'C20/public-api/sequences', 'qualname': 'public-api-sequences', 'shape': 'sequences', 'function': 'sequences of public operations on one object, msb0 and lsb0',
                          'bound': f'{N} sequences of 1-4 operations, objects <= 24 bits, seed {seed}', 'evaluations': N, 'failures': fails[:6]}],
             'summary': f'{N} sequences, {len(fails)} distinct failures'}
+
+
+
+def _array_case(seed, i):
+    import operator
+    import bitstring
+    from bitstring import Array
+    rng = random.Random(seed * 1000003 + i)
+    ops = [operator.add, operator.sub, operator.mul, operator.floordiv, operator.truediv, operator.mod, operator.lshift, operator.rshift, operator.and_, operator.or_,
+           operator.xor, operator.iadd, operator.isub, operator.imul, operator.ifloordiv, operator.itruediv, operator.imod, operator.ilshift, operator.irshift,
+           operator.lt, operator.le, operator.eq, operator.ne, operator.ge, operator.gt, operator.neg, operator.abs]
+    dts = ['uint8', 'int8', 'uint12', 'float32', 'float16', 'bool', 'hex4', 'bytes2', 'intle16', 'bfloat', 'uint1']
+    mk = {'float32': lambda: rng.choice([0.0, -0.0, 1.5, -2.0, 1e30]), 'float16': lambda: rng.choice([0.0, 1.0, -3.5, 65504.0]), 'bfloat': lambda: rng.choice([0.0, 1.0, -2.0]),
+          'bool': lambda: rng.random() < 0.5, 'hex4': lambda: rng.choice('0123456789abcdef'), 'bytes2': lambda: bytes([rng.randrange(256), rng.randrange(256)])}
+    def vals(dt, n):
+        if dt in mk:
+            return [mk[dt]() for _ in range(n)]
+        d = bitstring.Dtype(dt)
+        lo, hi = (-(1 << (d.bitlength - 1)), (1 << (d.bitlength - 1)) - 1) if d.is_signed else (0, (1 << d.bitlength) - 1)
+        return [rng.choice([0, 0, 1, lo, hi, rng.randint(lo, hi)]) for _ in range(n)]
+    dt1, dt2 = rng.choice(dts), rng.choice(dts)
+    n = rng.randint(0, 4)
+    a = Array(dt1, vals(dt1, n), trailing_bits=rng.choice([None, None, '0b1']) if dt1 != 'uint1' and dt1 != 'bool' else None)
+    op = rng.choice(ops)
+    numeric = dt1 not in ('hex4', 'bytes2')
+    bitwise = op in (operator.and_, operator.or_, operator.xor)
+    if not numeric and not bitwise:
+        # arithmetic on the items of a non-numeric dtype is Python's own str/bytes arithmetic (printf-style % included): out of scope
+        op = rng.choice([operator.eq, operator.ne, operator.and_, operator.or_, operator.xor])
+        bitwise = op in (operator.and_, operator.or_, operator.xor)
+    other_kind = rng.choice(['array same', 'array other', 'scalar', 'scalar0', 'str', 'none'] + (['bits'] * 3 if bitwise else []))
+    if op in (operator.neg, operator.abs):
+        call, desc = (lambda: op(a)), f'{op.__name__}(Array({dt1!r}, {a.tolist()!r}))'
+    else:
+        if other_kind == 'array same':
+            b = Array(dt1, vals(dt1, rng.choice([n, n, n + 1])))
+        elif other_kind == 'array other':
+            b = Array(dt2, vals(dt2, n))
+        elif other_kind == 'scalar':
+            b = rng.choice([1, 2, -1, 0.5, 3, 100, 70000, True])       # (kept feasible: a shift count of 2**40 is a memory bomb in plain Python too)
+        elif other_kind == 'scalar0':
+            b = rng.choice([0, 0.0, -0.0, False])
+        elif other_kind == 'bits':
+            b = bitstring.Bits(uint=1, length=max(1, a.itemsize)) if a.itemsize else bitstring.Bits()
+        elif other_kind == 'str':
+            b = rng.choice(['0b1', 'abc', ''])
+        else:
+            b = None
+        call, desc = (lambda: op(a, b)), f'Array({dt1!r}, {a.tolist()!r}) {op.__name__} {b!r}'
+    before = a.data.bin
+    inplace = op.__name__.startswith('i') and op.__name__ not in ('invert',)
+    try:
+        r = call()
+        ok, why = True, ''
+        if isinstance(r, Array):
+            r.tolist()
+    except DOCUMENTED:
+        ok, why = True, ''
+        if a.data.bin != before:
+            ok, why = False, 'raised, yet the Array changed'
+    except bitstring.Error:
+        ok, why = True, ''
+    except Exception as e:
+        ok, why = False, f'raised {type(e).__name__}: {e}'
+    if ok and not inplace and a.data.bin != before:
+        ok, why = False, 'a non-in-place operator changed its operand'
+    return ok, f'{desc}: {why}'
+
+
+def array_ops(tier='quick', seed=0):
+    """Array operators (binary, in-place, reflected, comparison, unary) with Arrays of the same and other dtypes, scalars incl. zero,
+    Bits, strings and None: a documented exception or a result; a raising operator leaves the Array unchanged.  Bounded, native, replayable."""
+    fails = []
+    N = 6000 if tier == 'quick' else 100000
+    seen = set()
+    for i in range(N):
+        ok, desc = _array_case(seed, i)
+        if not ok:
+            key = desc.split(': ', 1)[1][:30] + desc.split(')')[1][:12] if ')' in desc else desc[:40]
+            if key in seen:
+                continue
+            seen.add(key)
+            fails.append({'call': desc[:240], 'python': "import sys\nsys.path.insert(0, '/verif')\nfrom props.C20 import _array_case\n"
+                                                       f"ok, desc = _array_case({seed}, {i})\nprint(desc)\nFAILS = not ok\n"})
+            if len(fails) > 8:
+                break
+    return {'id': 'C20.array_ops', 'obligations': [], 'evaluations': N,
+            'bounded': [{'id': 'C20/array_.Array/operators', 'qualname': 'array_.Array.operators', 'shape': 'random operator applications', 'function': 'Array element-wise operators',
+                         'bound': f'{N} random applications, seed {seed}', 'evaluations': N, 'failures': fails[:6]}],
+            'summary': f'{N} operator applications, {len(fails)} distinct failures'}
